@@ -271,6 +271,43 @@ theorem C16_add_computes_md {S : Type} (A : HashMD.Alg S) (hbs : 0 < A.blockSize
     refine ⟨content, rfl, ?_⟩
     rw [hd, ← hdig, C16_compute_md A hbs content]
 
+/-- …and by NAME: `add(path, "sha256")` (any modelled name, any letter case) without a value records, under the
+normalised relative path, THAT algorithm's one-shot digest of the full content of `root/normpath(path)` -/
+theorem C16_add_computes_by_name (files : Str → Option Bytes) (tbl : Table) (rel ct root : Str)
+    (hrel : Str.startsWith rel ['/'] = false)
+    (hok : (add (digestByName files) tbl rel ct none (some root)).2 = .ok ()) :
+    ∃ content d, files (pathJoin root (normpath rel)) = some content
+      ∧ withAlg ct (fun A => HashMD.hashBytes A content) = some d
+      ∧ (add (digestByName files) tbl rel ct none (some root)).1 = tbl.set (normpath rel) (ct, d) := by
+  obtain ⟨d, hd, _, _, hcomp⟩ := C16_add _ tbl rel ct none (some root) hrel hok
+  obtain ⟨r, hr, hdig⟩ := hcomp (by simp [valTruthy])
+  have : r = root := by simpa using hr.symm
+  subst this
+  unfold digestByName at hdig
+  cases hf : files (pathJoin r (normpath rel)) with
+  | none => simp [hf] at hdig
+  | some content =>
+    simp only [hf] at hdig
+    cases hc : computeByName ct content with
+    | none => simp [hc] at hdig
+    | some d' =>
+      simp only [hc, Except.ok.injEq] at hdig
+      subst hdig
+      exact ⟨content, d', rfl, C16_compute_by_name ct content d' hc, hd⟩
+
+/-- the Merkle–Damgård finaliser is well formed for EVERY pending buffer and length: pending ++ 0x80 ++ zeros ++ length
+is a whole number of blocks – the smallest that fits –, starts with the pending bytes, and is compressed completely
+(nothing is left over), whatever the compression function -/
+theorem C16_md_padding (bs lb : Nat) (hbs : 0 < bs) (be : Bool) (pending : Bytes) (total : Nat) :
+    (HashMD.mdPad bs lb be pending total).length % bs = 0
+    ∧ pending.length + 1 + lb ≤ (HashMD.mdPad bs lb be pending total).length
+    ∧ (HashMD.mdPad bs lb be pending total).length < pending.length + 1 + lb + bs
+    ∧ pending ++ [0x80] <+: HashMD.mdPad bs lb be pending total
+    ∧ (∀ {S : Type} (f : S → Bytes → S) (cv : S), (HashMD.absorbAll bs f cv (HashMD.mdPad bs lb be pending total)).2 = []) :=
+  ⟨(HashMD.mdPad_blocks bs lb hbs be pending total).1, (HashMD.mdPad_blocks bs lb hbs be pending total).2.1,
+   (HashMD.mdPad_blocks bs lb hbs be pending total).2.2, HashMD.mdPad_prefix bs lb be pending total,
+   fun f cv => HashMD.mdFinish_consumes bs lb hbs be f cv pending total⟩
+
 /-- test vectors checked by the kernel (RFC 1321 A.5, FIPS 180-4 examples): the empty string and "abc" -/
 theorem C16_test_vectors :
     HashMD.hashBytes HashMD.md5 [] = "d41d8cd98f00b204e9800998ecf8427e".toList
@@ -568,6 +605,8 @@ example : chunkedMD HashMD.md5 7 (List.replicate 150 0x61) = HashMD.hashBytes Ha
 example : computeByName "SHA256".toList [0x61, 0x62, 0x63]
     = some "ba7816bf8f01cfea414140de5dae2223b00361a396177a9cb410ff61f20015ad".toList := by decide +kernel
 example : computeByName "sha3_256".toList [] = none := by decide
+example : (add (digestByName fun p => if p = "R/a/Z.img".toList then some [0x61, 0x62, 0x63] else none) [] "./a//x/../Z.img".toList
+    "md5".toList none (some "R".toList)).1 = [("a/Z.img".toList, ("md5".toList, "900150983cd24fb0d6963f7d28e17f72".toList))] := by decide +kernel
 /-- the hypotheses of the generic theorems hold of a sponge-shaped instance too (rate 136 = sha3-256's) -/
 example : 0 < (⟨136, (), fun _ _ => (), fun _ _ _ => []⟩ : HashMD.Alg Unit).blockSize := by decide
 /-- padding: 55 bytes still fit one block with the length, 56 need a second block -/
